@@ -515,6 +515,8 @@ def known_for(isa, fn):
     if fn.startswith('round4_f'): k.append('KF-C03-round-ties')
     if re.match(r'(round|floor|ceil|fract|mod)4_f', fn): k.append('KF-C03-sse2-rounding-fallback')
     if re.match(r'p?(face|refr)3_f', fn): k.append('KF-C03-sse2-vec3-dot-association')
+    if fn.startswith('minv3'): k.append('KF-C03-simd-inverse3-determinant-expansion')
+    if fn.startswith('qrot'): k.append('KF-C03-simd-quat-vec4-w-lane-cancellation')
     return k
 def _round_tie(res, i):
     xf = fpof(res.ins[0][i])
@@ -776,7 +778,134 @@ def check_pair(S, ua, ub, fn, tag, isas):
         elif not getattr(pr, 'approx_bad', False):
             S.rec(name=pr.nm + '.no-approx', kind='structure', functions=pr.fnlist, bounds=pr.binfo, solver='term DAG inspection', result='unsat', time_s=0.0, status='discharged', mandatory=mand,
                   note='no rcp/rsqrt approximation intrinsic reachable from the results')
+        check_domination(S, pr, er, E, rn, mand, erased_inputs)
     if sp['dec']: check_decisions(S, pr, rest)
+
+# ----------------------------------------------------------------------------- magnitude domination of the SIMD intermediates (first-order rounding bound)
+FP_ARITH = (z3.Z3_OP_FPA_ADD, z3.Z3_OP_FPA_SUB, z3.Z3_OP_FPA_MUL, z3.Z3_OP_FPA_DIV, z3.Z3_OP_FPA_FMA)
+DOM_C = (1, 2, 4, 8, 16)
+def check_domination(S, pr, er, E, rn, mand, erased_inputs):
+    """Every rounded intermediate n of the SIMD expression (fp.add/sub/mul/div/fma node in the cone of a result) is bounded by the pure expression's intermediates:
+    |n| <= c * max_j |p_j| for all inputs, c <= 16.  With the erased equality this gives the property's quantitative clause to first order: each SIMD operation rounds a value no larger
+    than c*M (M = largest pure intermediate), so the two results differ by at most (number of operations) * (c + 1) * u * M, and a SIMD intermediate can not overflow (inf - inf = NaN)
+    where the pure evaluation stays c times below the overflow threshold.  Decided per SIMD node: (1) same rational normal form (up to sign) as a pure node; otherwise (2) a linear-real-arithmetic
+    query in which every monomial of the polynomial normal forms is an independent variable (an over-approximation of the inputs: unsat => the bound holds for all inputs).  A satisfiable
+    abstraction is re-asked over the real inputs (nonlinear) and its model replayed natively at growing scales (overflow of the extra intermediate makes the results differ)."""
+    if pr.fn.endswith('_lp'): return
+    t0 = time.time()
+    def nodes(ts):
+        out = {}
+        for t in ts:
+            for k, u in subterms(t).items():
+                if z3.is_app(u) and z3.is_fp(u) and u.decl().kind() in FP_ARITH: out[k] = u
+        return list(out.values())
+    PN = nodes([el[6] for el in er]); SN = nodes([el[7] for el in er])
+    def norm(u):
+        try: return rn.rf(E.fp(u))
+        except (OverflowError, RecursionError, Unsupported, z3.Z3Exception, AttributeError): return None
+    def sgnkey(p, q):       # key up to sign: leading coefficient of the numerator made positive
+        if not p: return ('0',)
+        m0 = min(p); f = 1 if p[m0] > 0 else -1
+        return (frozenset((m, f * c) for m, c in p.items()), frozenset(q.items()))
+    pf = [norm(u) for u in PN]; pkeys = {sgnkey(*x) for x in pf if x is not None}
+    ppoly = [x[0] for x in pf if x is not None and x[1] == rn.ONE and x[0]]
+    # the operands themselves count as terms of the pure expression: every input atom that occurs in a pure node
+    inputs = sorted({v for p_ in ppoly for m_ in p_ for v in m_})
+    ppoly += [{(v,): Fraction(1)} for v in inputs]; pkeys |= {sgnkey({(v,): Fraction(1)}, rn.ONE) for v in inputs}
+    todo = []; n_same = 0; skipped = 0
+    for u in SN:
+        x = norm(u)
+        if x is None: skipped += 1; continue
+        if not x[0] or sgnkey(*x) in pkeys: n_same += 1; continue
+        todo.append((u, x))
+    name = pr.nm + '.intermediates-dominated'
+    b2 = pr.binfo + ' [rounding-erased; every add/sub/mul/div/fma node of the SIMD results against the nodes of the pure results]'
+    if not todo:
+        S.rec(name=name, kind='magnitude', functions=pr.fnlist, bounds=b2, solver='rational-function normal forms: each of the %d SIMD intermediates is (up to sign) one of the %d pure intermediates' % (len(SN), len(PN)),
+              result='unsat', time_s=round(time.time() - t0, 3), status='discharged', mandatory=mand, note='c = 1; %d nodes not normalised' % skipped)
+        return
+    mono = {}
+    def lin(p):
+        t = z3.RealVal(0)
+        for m, c in p.items():
+            if m == (): t = t + z3.RealVal(str(c)); continue
+            if m not in mono: mono[m] = z3.Real('mono!%d' % len(mono))
+            t = t + z3.RealVal(str(c)) * mono[m]
+        return t
+    def ab(t): return z3.If(t >= 0, t, -t)
+    inv_atom = {v: k for k, v in rn.atom.items()}
+    def atom_name(v):
+        k = inv_atom.get(v)
+        if k and k[0] == 't' and k[1] in rn.memo: return str(rn.memo[k[1]][0])
+        return 'atom%d' % v
+    def node_id(p, q):      # stable identity of an intermediate: its polynomial normal form over the named inputs, up to sign
+        if q != rn.ONE: return 'rational:' + hashlib.sha1(repr((sorted((tuple(sorted(atom_name(v) for v in m_)), str(abs(c))) for m_, c in p.items()), sorted((tuple(sorted(atom_name(v) for v in m_)), str(abs(c))) for m_, c in q.items()))).encode()).hexdigest()[:10]
+        items = sorted(((tuple(sorted(atom_name(v) for v in m_)), c) for m_, c in p.items()), key=lambda kv: kv[0]); f = 1 if items[0][1] > 0 else -1
+        return ' '.join('%+g*%s' % (float(f * c), '*'.join(m_) or '1') for m_, c in items)
+    worst = 1; bads = []
+    P_lin = [lin(p) for p in ppoly]
+    for u, (p, q) in todo:
+        if q != rn.ONE or not ppoly: bads.append((u, p, q, 'rational node without a pure counterpart')); continue
+        n_ = ab(lin(p)); ok = False
+        for c in DOM_C:
+            sv = z3.SolverFor('QF_LRA'); sv.set('timeout', 10000)
+            for pj in P_lin: sv.add(c * ab(pj) < n_)
+            if sv.check() == z3.unsat: worst = max(worst, c); ok = True; break
+        if not ok: bads.append((u, p, q, 'not bounded by 16 * max |pure intermediate| in the monomial abstraction'))
+    # nodes the abstraction could not bound: the nonlinear query over the real inputs decides
+    hy = list(E.axioms) + ([z3.Not(z3.Or(*E.domain))] if E.domain else [])
+    pure_terms = [E.fp(v) for v in PN] + list(E.vars.values())
+    W = max([ct_bits(c) for (c, n_) in pr.fa.ins if ct_kind(c) == 'f'] or [32]); big = 2 ** (130 if W == 32 else 1030); mid = 2 ** (100 if W == 32 else 900)
+    dens = [d_.arg(0) for d_ in E.domain if z3.is_app(d_) and d_.num_args() == 2 and d_.decl().kind() == z3.Z3_OP_EQ]
+    def finite_pure(info):
+        try:
+            for (c, n_), row in zip(pr.fa.outs, info.get('native_pure', [])):
+                if ct_kind(c) != 'f': continue
+                for hx in row:
+                    f = bits_to_float(int(hx, 16), ct_bits(c))
+                    if f != f or f in (float('inf'), float('-inf')): return False
+            return True
+        except Exception: return False
+    kfs = [(kid, S.known.get(kid)) for kid in pr.known if S.known.get(kid) and (S.known.get(kid) or {}).get('nodes')]
+    open_bad = 0
+    seen_n = set()
+    for u, p, q, why in bads[:16]:
+        nr = E.fp(u); nid = node_id(p, q); nname = name + '[%s]' % nid
+        if nid in seen_n: continue
+        seen_n.add(nid)
+        r, m, dt, used = S.query(hy + [16 * ab(t) < ab(nr) for t in pure_terms], S.cap(30, 90), 'z3', [])
+        if r == 'unsat': worst = 16; continue
+        kf = next(((kid, k_) for kid, k_ in kfs if nid in k_['nodes']), None)
+        rec = S.rec(name=nname, kind='magnitude', functions=pr.fnlist, bounds=b2, solver='z3 QF_LRA abstraction (sat) + ' + used, result=r, time_s=round(dt, 3), mandatory=mand and kf is None, note=why + ': ' + str(z3.simplify(nr))[:600])
+        tried = []
+        r2, m2, dt2, used2 = S.query(hy + [ab(t) <= mid for t in pure_terms] + [ab(nr) >= big] + [ab(d_) >= 1 for d_ in dens], S.cap(30, 60), 'z3', [])
+        if r2 == 'sat': tried.append(('overflow of the extra intermediate, pure intermediates <= 2^%d' % (100 if W == 32 else 900), erased_inputs(m2), [0]))
+        if r == 'sat': tried.append(('model of the unbounded node', erased_inputs(m), list(range(0, 130, 6))))
+        hit = None
+        for what, vals, scales in tried:
+            for k in scales:
+                lim = 3e38 if W == 32 else 1e308
+                sc = [[(float_to_bits(bits_to_float(v, ct_bits(c)) * (2.0 ** k), ct_bits(c)) if ct_kind(c) == 'f' and abs(bits_to_float(v, ct_bits(c))) * (2.0 ** k) < lim else v) for v in row] for (c, n_), row in zip(pr.fa.ins, vals)]
+                verdict, info = pr.replay_vals(sc, None, None, tol=2e-3)
+                if verdict == 'reproduced' and finite_pure(info):
+                    info['witness'] = what + ('' if not k else ', inputs scaled by 2^%d' % k); info['unbounded_intermediate'] = nid; hit = info; break
+            if hit: break
+        if hit:
+            rec['replay'] = 'reproduced'; rec['replay_info'] = hit; rec['result'] = 'sat'
+            if kf is not None: rec['status'] = 'known-finding'; rec['kind'] = 'known-finding-probe'; S.known_hits.append((kf[0], kf[1]['what']))
+            else:
+                rec['status'] = 'counterexample'
+                if mand: S.violations.append((nname, hit))
+            open_bad += 1 if kf is None else 0
+        elif kf is not None: rec['status'] = 'known-finding-not-reproduced'; rec['kind'] = 'known-finding-probe'
+        else:
+            rec['status'] = 'inconclusive'; rec['replay'] = 'not-reproduced'; open_bad += 1
+            if mand: S.inconclusive.append(nname)
+    if not open_bad:
+        kn = [x for x in bads if any(node_id(x[1], x[2]) in k_['nodes'] for kid, k_ in kfs)]
+        S.rec(name=name, kind='magnitude', functions=pr.fnlist, bounds=b2 + ('; excluding the %d intermediates of the known finding(s) %s' % (len(kn), ','.join(kid for kid, k_ in kfs)) if kn else ''),
+              solver='normal forms + z3 QF_LRA over monomial variables (%d SIMD nodes identical to pure nodes or operands, %d bounded by linear arithmetic%s)' % (n_same, len(todo) - len(bads), '' if not bads else ', %d by the nonlinear query' % (len(bads) - len(kn))),
+              result='unsat', time_s=round(time.time() - t0, 3), status='discharged', mandatory=mand, note='|n| <= %d * max(|pure intermediates|, |operands|) for every SIMD intermediate n; %d nodes not normalised' % (worst, skipped))
 
 def check_padding(S, pr):
     """no result of an operation on aligned vec3 operands depends on the 4th SIMD lane of an operand (it is arbitrary: the w of the vec4 the vec3 was cut from, possibly inf / NaN).  Bit-precise:
